@@ -68,3 +68,17 @@ Example C13_example :
   /\ parse [ (RCode 200, [(MJson "application/json", "JSON200")]); (RRange 2, [(MJson "application/json", "JSON2XX")]) ] 201 "application/json; charset=utf-8" = Some "JSON2XX"
   /\ parse [ (RCode 200, [(MJson "application/json", "JSON200")]) ] 404 "application/json" = None.
 Proof. vm_compute. repeat split. Qed.
+
+(** A range clause fires exactly for the hundred statuses of its range - for every status, not only those of a sweep -
+    and the clause spelled as bounds with the upper bound one short differs from it at the last status of the range only
+    (x99), where it misses. *)
+Theorem C13_range_clause_bounds : forall d status,
+  status_matches (RRange d) status = true <-> (d * 100 <= status /\ status < d * 100 + 100).
+Proof. exact range_clause_bounds. Qed.
+Print Assumptions C13_range_clause_bounds.
+
+Theorem C13_range_clause_off_by_one_refuted :
+  status_matches (RRange 4) 499 = true /\ range_clause_off_by_one 4 499 = false
+  /\ forall d status, status <> d * 100 + 99 -> range_clause_off_by_one d status = status_matches (RRange d) status.
+Proof. exact range_clause_off_by_one_refuted. Qed.
+Print Assumptions C13_range_clause_off_by_one_refuted.
